@@ -23,6 +23,12 @@ _KEEP = []
 
 
 def prior_activity(kind):
+    if kind != "none":
+        # earlier, unrelated use of the library's convenience objects in this process
+        from pydsol.core.streams import StreamInformation
+        si = StreamInformation()
+        for _ in range(7):
+            si.get_stream("default").next_float()
     if kind == "events":
         from pydsol.core.simevent import SimEvent
 
